@@ -234,6 +234,10 @@ func paramClass(text string) string {
 }
 
 func c10Body(c *core.Ctx) {
+	if c.Mode == "killed" {
+		c10KilledBody(c)
+		return
+	}
 	vexec.Init()
 	gen := GenOpts{MaxN: 6, Retries: true, Preconds: true, ContinueOn: true, Failures: true, MaxActive: true, Handlers: true}
 	n := c.Pick(2500, 20000)
@@ -418,9 +422,10 @@ func init() {
 			return []core.Pass{
 				{Name: "main", Mode: "controlled", Shards: 16, Timeout: 60 * time.Minute},
 				{Name: "race", Mode: "free", Race: true, Shards: 16, Timeout: 60 * time.Minute},
+				{Name: "killed", Mode: "killed", Shards: 12, Timeout: 60 * time.Minute},
 			}
 		},
-		Rule: "Recorded runs are PRODUCED BY THE REAL AGENT: a generated DAG (<=6 steps, failures, continueOn, precondition lists, handlers, parameter strings from a pool incl. quoted values with spaces; 30% stopped by Agent.Signal at a PRNG-chosen point) is run through Agent.Run with a history store wrapper that keeps every status line written; every distinct line (final line + up to 3 (7) intermediate ones — the state a crash at that moment would leave last, which is how 'running' and 'not started' vectors arise) is then retried: dag.Load(file, recorded.Params) + agent with RetryTarget, as cmd/retry.go does, in the same data directory, with fresh scripts (25% of steps fail again, preconditions re-drawn) and in half the cases the DAG file edited in between (an extra step added as a dependency). Oracle: unfinished part R = recorded failed/canceled/running/not-started + everything downstream; every kept step has zero executor events and identical status, retry count, log path and start/finish times; every R step whose dependencies let it proceed is executed and ends as scripted; the C01 dependency gate holds during the retry; the retry terminates (logical fix-point detector); a new run with a new request id is found by a fresh store; every pre-existing history file is byte-identical; no step outside the recorded run executes; reloading with the recorded parameter string reproduces the original DAG.Params. Non-trivial = each retry executed. Distinct = (case, recorded vector, retry scripts).",
+		Rule: "Recorded runs are PRODUCED BY THE REAL AGENT: a generated DAG (<=6 steps, failures, continueOn, precondition lists, handlers, parameter strings from a pool incl. quoted values with spaces; 30% stopped by Agent.Signal at a PRNG-chosen point) is run through Agent.Run with a history store wrapper that keeps every status line written; every distinct line (final line + up to 3 (7) intermediate ones — the state a crash at that moment would leave last, which is how 'running' and 'not started' vectors arise) is then retried: dag.Load(file, recorded.Params) + agent with RetryTarget, as cmd/retry.go does, in the same data directory, with fresh scripts (25% of steps fail again, preconditions re-drawn) and in half the cases the DAG file edited in between (an extra step added as a dependency). Oracle: unfinished part R = recorded failed/canceled/running/not-started + everything downstream; every kept step has zero executor events and identical status, retry count, log path and start/finish times; every R step whose dependencies let it proceed is executed and ends as scripted; the C01 dependency gate holds during the retry; the retry terminates (logical fix-point detector); a new run with a new request id is found by a fresh store; every pre-existing history file is byte-identical; no step outside the recorded run executes; reloading with the recorded parameter string reproduces the original DAG.Params. Killed-run pass: the real `blackdagger start` of a 3-step DAG with two handlers is SIGKILLed by the ptrace supervisor before every third (thorough: every) watched system call; the record it leaves is retried with the real `blackdagger retry --req`: exit 0, steps recorded finished are not executed again, all others are, and the retry is recorded as a new run. Non-trivial = each retry executed. Distinct = (case, recorded vector, retry scripts).",
 		Assumptions: []string{"the error text of kept steps is not compared (re-wrapped on load)",
 			"for steps recorded mid-retry (not started with a non-zero retry count) only 'executed and ends as scripted' is demanded"}})
 }
